@@ -980,7 +980,8 @@ def precheck_coverage(prog):
                     if want and hit is not True:
                         cov["diag" if diag else "pairs"] = False
                         cov["why"] += "%s (%s,%s) is not counted; " % ("self-loop" if diag else "two-cycle", a_, b_)
-                    if not want and hit is not False:
+                    # a pattern that must be accepted is rejected as soon as the test fires for *one* placement (i > j or i < j)
+                    if not want and not all(h is False for h in hits):
                         cov["false_rejections"].append(("diagonal " if diag else "") + "%s,%s" % (a_, b_))
         except Inconclusive as e:
             cov = {"node": r.node, "pairs": False, "diag": False, "false_rejections": [], "why": e.why}
